@@ -36,7 +36,8 @@ def handleFile (op : String) (a : Args) : String :=
     | .ok (total, cols, rgs) =>
       let rg := rgs.map fun r => s!"[{r.numRows},{showList (r.chunks.map (showChunk cols))}]"
       let metaS := cols.map fun l => s!"[{l.ptype},{match l.converted with | some c => (c : Int) | none => -1},{l.tsUnit},{l.maxDef},{l.typeLength},{l.maxRep},{l.repDef}]"
-      s!"ok rows={total} cols={showList (cols.map fun l => toHex ((l.path.intersperse [46]).flatten))} meta={showList metaS} rgs={showList rg}"
+      let looseN := (rgs.map fun r => (r.chunks.map (·.loose)).sum).sum
+      s!"ok loose={looseN} rows={total} cols={showList (cols.map fun l => toHex ((l.path.intersperse [46]).flatten))} meta={showList metaS} rgs={showList rg}"
     | .error e => s!"err invalid {e.replace " " "_"}"
   | "footer" =>
     match footerOf file (a.nat "meta" != 0) with
